@@ -100,7 +100,7 @@ Definition pseudo_operand (s : text) (i : irow) : res operand :=
            else if negb (Tables.is_multi_byte i) && negb (Tables.is_multi_word i) &&
                    (Tables.is_include i || (text_eqb (mnem i) END_t && Nat.eqb (length s) 0)) then Ok VNone
            else create_value s i true);
-  if Tables.is_pseudo_define i then
+  if Tables.is_pseudo_define i && v_is_numeric v then      (* numeric only: repair F41 *)
     if starts_with [36] s && Nat.ltb 3 (length s) then
       do n <- num_of_int false (v_int v) None MExtended; Ok (OPseudo s (VNum n))
     else if Nat.eqb (v_hex_len v) 2 then
@@ -139,6 +139,9 @@ Definition create_operand (s : text) (i : irow) : res operand :=
   end.
 
 (* ---------- resolve_symbols ---------- *)
+Definition FCB_t : text := [70;67;66].  Definition FDB_t : text := [70;68;66].  Definition RMB_t : text := [82;77;66].
+Definition ORG_t : text := [79;82;71].  Definition FCC_t : text := [70;67;67].
+
 
 (* the left side of an indexed operand: Value.create_from_str(left, instruction, False), then
    symbols and expressions are resolved *)
@@ -158,7 +161,18 @@ Definition resolve_left (l : side) (i : irow) (tb : symtab) : res side :=
 
 Definition resolve_operand (o : operand) (i : irow) (tb : symtab) : res operand :=
   match o with
-  | OPseudo _ _ | OSpecial _ | OInherent | ODirect _ | OExtended _ => Ok o
+  | OSpecial _ | OInherent | ODirect _ | OExtended _ => Ok o
+  | OPseudo s v =>
+      (* FCB/FDB elements (repair F39), RMB and ORG (repair F40) take symbols and expressions *)
+      let is_data := Tables.is_multi_byte i || Tables.is_multi_word i in
+      let is_layout := text_eqb (mnem i) RMB_t || text_eqb (mnem i) ORG_t in
+      do v' <- (if (is_data || is_layout) && (v_is_symbol v || v_is_expr v) then resolve_value v tb else Ok v);
+      if is_layout then
+        match v' with
+        | VPyNone => Diag 24
+        | _ => if negb (v_is_numeric v') || v_negative v' then Diag 21 else Ok (OPseudo s v')
+        end
+      else Ok (OPseudo s v')
   | ORelative v => do v' <- resolve_value v tb; Ok (ORelative v')
   | OImmediate v => do v' <- resolve_value v tb; Ok (OImmediate v')
   | OUnknown v =>
@@ -168,7 +182,7 @@ Definition resolve_operand (o : operand) (i : irow) (tb : symtab) : res operand 
       | _ =>
         let fits_direct := v_is_direct v' && (v_int v' <? 256) && negb (v_negative v') in
         let fits_direct := fits_direct && negb (mode_eqb (v_mode v) MExplExtended) in
-        if v_is_numeric v' && (fits_direct || mode_eqb (v_mode v) MExplDirect) then Ok (ODirect v')
+        if mode_eqb (v_mode v) MExplDirect || (v_is_numeric v' && fits_direct) then Ok (ODirect v')   (* F44 *)
         else Ok (OExtended v')
       end
   | OExtIdx s v l r =>
@@ -235,17 +249,15 @@ Definition translate_special (s : text) (i : irow) : res codepkg :=
             cp_needs := false; cp_choices := []; cp_max := Tables.imm_sz i |}
   end.
 
-Definition FCB_t : text := [70;67;66].  Definition FDB_t : text := [70;68;66].  Definition RMB_t : text := [82;77;66].
-Definition ORG_t : text := [79;82;71].  Definition FCC_t : text := [70;67;67].
 
 Definition translate_pseudo (v : value) (i : irow) : res codepkg :=
   let m := mnem i in
   if text_eqb m FCB_t then
     if v_is_multi v then Ok (data_pkg v (v_byte_len v))
-    else match v with VPyNone => Diag 24 | _ => do a <- fit_value v 2 true; Ok (data_pkg a 1) end
+    else match v with VPyNone => Diag 24 | _ => do a <- (if v_is_numeric v then fit_value v 2 true else Ok v); Ok (data_pkg a 1) end
   else if text_eqb m FDB_t then
     if v_is_multi v then Ok (data_pkg v (v_byte_len v))
-    else match v with VPyNone => Diag 24 | _ => do a <- fit_value v 4 true; Ok (data_pkg a 2) end
+    else match v with VPyNone => Diag 24 | _ => do a <- (if v_is_numeric v then fit_value v 4 true else Ok v); Ok (data_pkg a 2) end
   else if text_eqb m RMB_t then
     do a <- numv_h 0 (v_int v * 2); Ok (data_pkg a (v_int v))
   else if text_eqb m ORG_t then
@@ -319,6 +331,9 @@ Definition translate_indexed (indirect : bool) (l : side) (r : text) (i : irow) 
             do a <- fit_value lv (if wide then 4 else 2) true;
             let size := sz + (if wide then 2 else 1) in
             mk_idx_pkg opc (N.lor raw0 (N.lor (if wide then 141 else 140) ib)) [] a size size needs
+        else if needs then
+          (* a label as the constant offset: the 16-bit form, filled in by fix_addresses (repair F43) *)
+          mk_idx_pkg opc (N.lor raw0 (N.lor 137 ib)) [] lv (sz + 2) sz true
         else
           match lv with
           | VNum n =>
@@ -375,7 +390,8 @@ Definition translate_operand (o : operand) (i : irow) : res codepkg :=
       opt_op (Tables.ind i) (fun opc =>
       match v with
       | VPyNone => Diag 24
-      | VAddr _ => mk_idx_pkg opc 159 [] v (Tables.ind_sz i + 2) (Tables.ind_sz i + 2) false
+      | VAddr _ | VExpr _ _ _ _ true =>       (* [label] and [label+n] (repair F42) *)
+          mk_idx_pkg opc 159 [] v (Tables.ind_sz i + 2) (Tables.ind_sz i + 2) false
       | VNum _ => do a <- fit_value v 4 true; mk_idx_pkg opc 159 [] a (Tables.ind_sz i + 2) (Tables.ind_sz i + 2) false
       | _ => match r with
              | None => Diag 24        (* "X" in NoneValue: TypeError inside the wrapped translate *)
